@@ -92,6 +92,23 @@ class XQ:
     def __floor__(self): return self.v.__floor__()
     def __ceil__(self): return self.v.__ceil__()
     def __round__(self, nd=None): return round(self.v, nd) if nd is not None else round(self.v)
+    # numpy hook (added for the MIRP wrappers, C09): np.isinf / np.isnan / np.isfinite have no object
+    # loop, so `np.isinf(XQ)` would raise TypeError.  An XQ is always finite.  Every other ufunc is
+    # handed back to numpy's own object loop, i.e. behaves exactly as it did without this hook
+    # (np.fabs -> .fabs(), np.ceil -> __ceil__, np.floor -> __floor__, arithmetic -> the operators).
+    def __array_ufunc__(self, ufunc, method, *inputs, **kwargs):
+        import numpy as np
+        if method == "__call__" and not kwargs and len(inputs) == 1:
+            if ufunc is np.isinf or ufunc is np.isnan:
+                return False
+            if ufunc is np.isfinite:
+                return True
+        args = [np.asarray(x, dtype=object) if isinstance(x, XQ) else x for x in inputs]
+        r = getattr(ufunc, method)(*args, **kwargs)
+        if isinstance(r, np.ndarray) and r.ndim == 0:
+            return r[()]
+        return r
+
     def __repr__(self): return f"XQ({self.v})"
     __str__ = __repr__
     def __format__(self, spec): return format(float(self.v), spec) if spec else str(self.v)
